@@ -156,3 +156,134 @@ example : transformQuantCol "f" (GL.ofList [.num 1, .num 5, .inf]) tbl (some "__
     [some (.num 3), some (.num 7)] = .ok [some (.str "1 < x <= 5"), some (.str "5 < x")] := by decide
 
 end C04
+
+/-! ## The label table gives every member the label of its group -/
+
+namespace C04
+open Disc
+
+theorem aget_aset_same {α β : Type} [DecidableEq α] (l : List (α × β)) (k : α) (v : β) :
+    aget? (aset l k v) k = some v := by
+  induction l with
+  | nil => simp [aset, aget?]
+  | cons h t ih =>
+    obtain ⟨k', v'⟩ := h
+    by_cases hk : k' = k
+    · simp [aset, aget?, hk]
+    · simp [aset, aget?, hk, ih]
+
+theorem aget_aset_other {α β : Type} [DecidableEq α] (l : List (α × β)) (k k' : α) (v : β)
+    (h : k' ≠ k) : aget? (aset l k v) k' = aget? l k' := by
+  induction l with
+  | nil => simp [aset, aget?, Ne.symm h]
+  | cons hd t ih =>
+    obtain ⟨k'', v''⟩ := hd
+    by_cases hk : k'' = k
+    · subst hk
+      simp [aset, aget?, Ne.symm h]
+    · by_cases hk2 : k'' = k'
+      · subst hk2
+        simp [aset, aget?, hk]
+      · simp [aset, aget?, hk, hk2, ih]
+
+theorem aget_fold_members (lab : Val) : ∀ (vs : List Val) (acc : LabelTable) (x : Val),
+    aget? (vs.foldl (fun acc v => aset acc v lab) acc) x = if x ∈ vs then some lab else aget? acc x := by
+  intro vs
+  induction vs with
+  | nil => intro acc x; simp
+  | cons v t ih =>
+    intro acc x
+    simp only [List.foldl_cons, ih, List.mem_cons]
+    by_cases hxt : x ∈ t
+    · simp [hxt]
+    · by_cases hxv : x = v
+      · subst hxv; simp [hxt, aget_aset_same]
+      · simp [hxt, hxv, aget_aset_other _ _ _ _ hxv]
+
+/-- entries (members, label) written one after the other into the table -/
+def writeAll (entries : List (List Val × Val)) (acc : LabelTable) : LabelTable :=
+  entries.foldl (fun acc e => e.1.foldl (fun acc v => aset acc v e.2) acc) acc
+
+theorem writeAll_notin : ∀ (entries : List (List Val × Val)) (acc : LabelTable) (x : Val),
+    (∀ e ∈ entries, x ∉ e.1) → aget? (writeAll entries acc) x = aget? acc x := by
+  intro entries
+  induction entries with
+  | nil => intro acc x _; rfl
+  | cons e rest ih =>
+    intro acc x h
+    simp only [writeAll, List.foldl_cons]
+    have := ih (e.1.foldl (fun acc v => aset acc v e.2) acc) x (fun e' he' => h e' (List.mem_cons_of_mem _ he'))
+    simp only [writeAll] at this
+    rw [this, aget_fold_members]
+    simp [h e List.mem_cons_self]
+
+theorem writeAll_member : ∀ (entries : List (List Val × Val)) (acc : LabelTable) (x : Val) (i : Nat)
+    (hi : i < entries.length), x ∈ entries[i].1 →
+    (∀ j (hj : j < entries.length), j ≠ i → x ∉ entries[j].1) →
+    aget? (writeAll entries acc) x = some entries[i].2 := by
+  intro entries
+  induction entries with
+  | nil => intro acc x i hi; simp at hi
+  | cons e rest ih =>
+    intro acc x i hi hx huniq
+    simp only [writeAll, List.foldl_cons]
+    cases i with
+    | zero =>
+      have hrest : ∀ e' ∈ rest, x ∉ e'.1 := by
+        intro e' he'
+        obtain ⟨j, hj, rfl⟩ := List.getElem_of_mem he'
+        have := huniq (j + 1) (by simp; omega) (by omega)
+        simpa using this
+      have := writeAll_notin rest (e.1.foldl (fun acc v => aset acc v e.2) acc) x hrest
+      simp only [writeAll] at this
+      rw [this, aget_fold_members]
+      simp only [List.getElem_cons_zero] at hx ⊢
+      simp [hx]
+    | succ k =>
+      have hk : k < rest.length := by simpa using hi
+      have := ih (e.1.foldl (fun acc v => aset acc v e.2) acc) x k hk (by simpa using hx)
+        (by
+          intro j hj hjk
+          have := huniq (j + 1) (by simp; omega) (by omega)
+          simpa using this)
+      simp only [writeAll] at this
+      simpa using this
+
+/-- **Every member of the `i`-th group receives the `i`-th label** — the link between
+    `values_orders` and what `transform` looks up (quantitative: by leader; qualitative: by value). -/
+theorem tableOf_member (g : GL) (hwf : g.WF) (labels : List Val) (i : Nat) (hi : i < g.lst.length)
+    (hl : i < labels.length) (v : Val) (hv : v ∈ g.get g.lst[i]) :
+    aget? (tableOf g labels) v = some labels[i] := by
+  have hwf' := (GL.wf_iff g).1 hwf
+  obtain ⟨h1, h2, h3, ⟨h4, _⟩, _⟩ := hwf'
+  unfold tableOf
+  have hfuse : (g.lst.zip labels).foldl (fun acc gl => (g.get gl.1).foldl (fun acc v => aset acc v gl.2) acc) [] =
+      writeAll ((g.lst.zip labels).map (fun gl => (g.get gl.1, gl.2))) [] := by
+    unfold writeAll
+    rw [List.foldl_map]
+  rw [hfuse]
+  have hlen : i < ((g.lst.zip labels).map (fun gl => (g.get gl.1, gl.2))).length := by
+    simp only [List.length_map, List.length_zip]; omega
+  have := writeAll_member ((g.lst.zip labels).map (fun gl => (g.get gl.1, gl.2))) [] v i hlen
+    (by simpa using hv)
+    (by
+      intro j hj hji
+      have hj' : j < g.lst.length ∧ j < labels.length := by
+        simp only [List.length_map, List.length_zip] at hj; omega
+      simp only [List.getElem_map, List.getElem_zip]
+      intro hvj
+      -- two different leaders whose groups share `v`: impossible in a well-formed list
+      have hne : g.lst[j] ≠ g.lst[i] := by
+        intro e
+        exact hji ((List.getElem_inj h1).1 e)
+      have hmem : ∀ k (hk : k < g.lst.length), (g.lst[k], g.get g.lst[k]) ∈ g.content := by
+        intro k hk
+        have hkk : g.lst[k] ∈ Dict.keys g.content := (h3 _).1 (List.getElem_mem hk)
+        obtain ⟨vs, hvs⟩ := Dict.mem_keys.1 hkk
+        have : g.get g.lst[k] = vs := by
+          unfold GL.get; rw [(Dict.get?_eq_some h2).2 hvs]; rfl
+        rw [this]; exact hvs
+      exact h4 _ (hmem j hj'.1) _ (hmem i hi) hne v hvj hv)
+  simpa using this
+
+end C04
